@@ -859,14 +859,18 @@ func TestChildStress(t *testing.T) {
 	// (2) EventSystem: concurrent subscribers / unsubscribers while events stream
 	w := newFsWorld(t)
 	stop2 := make(chan struct{})
+	pusherDone := make(chan struct{})
 	go func() {
+		defer close(pusherDone)
 		for i := 0; ; i++ {
 			select {
 			case <-stop2:
 				return
 			default:
 			}
-			w.f.push([]string{qHeader, qEvm, qTx}[i%3], i)
+			if w.f.pushQuiet([]string{qHeader, qEvm, qTx}[i%3], i) != nil {
+				return
+			}
 		}
 	}()
 	var wg2 sync.WaitGroup
@@ -928,5 +932,6 @@ func TestChildStress(t *testing.T) {
 		os.Exit(3)
 	}
 	close(stop2)
+	<-pusherDone
 	fmt.Println("STRESS survived")
 }
